@@ -15,6 +15,7 @@ import (
 	"reflect"
 	"sort"
 	"strconv"
+	"sync"
 	"time"
 	"unsafe"
 )
@@ -43,13 +44,28 @@ func verifPoint(p string, r *stack) {
 	if len(*r) > 0 {
 		if c, ok := (*r)[0].(*nodeConfig); ok && c != nil {
 			ca = uintptr(unsafe.Pointer(c))
-			if c.mtx != nil {
-				la = uintptr(unsafe.Pointer(c.mtx))
+			if verifMutexOff != ^uintptr(0) {
+				if m := *(**sync.Mutex)(unsafe.Add(unsafe.Pointer(c), verifMutexOff)); m != nil {
+					la = uintptr(unsafe.Pointer(m))
+				}
 			}
 		}
 	}
 	h(p, uintptr(unsafe.Pointer(r)), ca, la)
 }
+
+// verifMutexOff is the offset of the configuration record's *sync.Mutex
+// field, found by type (not by name, so that renaming the field does not
+// break the instrumentation); ^0 if there is none.
+var verifMutexOff = func() uintptr {
+	t := reflect.TypeOf(nodeConfig{})
+	for i := 0; i < t.NumField(); i++ {
+		if t.Field(i).Type == reflect.TypeOf((*sync.Mutex)(nil)) {
+			return t.Field(i).Offset
+		}
+	}
+	return ^uintptr(0)
+}()
 
 /*
 VerifSetClock replaces the package clock (the `now` variable read by
